@@ -120,6 +120,7 @@ def cases(draw, tier):
     case['ty'] = draw(st.one_of(st.sampled_from(TX), st.floats(0.005, 0.6)))
     case['extremes'] = draw(st.booleans())
     case['int_points'] = draw(st.booleans())
+    case['flag_kind'] = draw(st.sampled_from(['bool', 'bool', 'numpy', 'int']))
     return case
 
 
@@ -152,6 +153,8 @@ def oracle(case, rec):
     m = len(reduced)
     kpos = sorted(set(min(k, m - 1) for k in case['knee_pos']))
     tx, ty, ext = case['tx'], case['ty'], case['extremes']
+    fk = case.get('flag_kind', 'bool')
+    ext_arg = ext if fk == 'bool' else (np.bool_(ext) if fk == 'numpy' else int(ext))     # any truth value
     rec.tag('reduction:' + src, 'extremes:%s' % ext, 'family:' + case['family'])
 
     def structural(out, label):
@@ -167,7 +170,7 @@ def oracle(case, rec):
 
     # --- add_points_even (knees are positions in the reduced curve)
     out = rec.call(4 * n + 16, L.postprocessing.add_points_even, p, reduced, np.array(kpos, dtype=int),
-                   removed, tx, ty, ext, _site='pp.add_points_even')
+                   removed, tx, ty, ext_arg, _site='pp.add_points_even')
     if out is not FAILED:
         r = structural(out, 'even')
         if r is not None:
@@ -184,7 +187,7 @@ def oracle(case, rec):
     knees = sorted(set(int(reduced[k]) for k in kpos))
     if knees:
         out = rec.call(4 * n + 16, L.postprocessing.add_points_even_knees, p, np.array(knees, dtype=int),
-                       tx, ty, ext, _site='pp.add_points_even_knees')
+                       tx, ty, ext_arg, _site='pp.add_points_even_knees')
         if out is not FAILED:
             r = structural(out, 'markers')
             if r is not None:
